@@ -93,12 +93,22 @@ impl<'a> Args<'a> {
         }
         Ok(v)
     }
-    fn lines(&mut self) -> Result<Vec<String>, String> {
+    /// Lines as `paint::prepare` leaves them (prefix removed, newline terminated). A field written
+    /// `X<hex>` instead of `x<hex>` is a line whose hunk state keeps its raw form
+    /// (`HunkMinus(_, Some(raw))`: coloured input, `raw` styles): the second component.
+    fn lines(&mut self) -> Result<Vec<(String, Option<String>)>, String> {
         let n = self.num()?;
         let mut v = Vec::new();
         for _ in 0..n {
-            // as `paint::prepare` leaves them: prefix removed, newline terminated
-            v.push(format!("{}\n", self.string()?));
+            let f = self.next()?;
+            if let Some(h) = f.strip_prefix('X') {
+                let text = unhex(&format!("x{h}"))?;
+                // as `paint::prepare_raw_line` leaves it: the input's colours, newline terminated
+                let raw = format!("\x1b[1;35m{text}\x1b[m\n");
+                v.push((format!("{text}\n"), Some(raw)));
+            } else {
+                v.push((format!("{}\n", unhex(f)?), None));
+            }
         }
         Ok(v)
     }
@@ -360,12 +370,12 @@ pub fn handle(op: &str, args: &[&str]) -> Result<String, String> {
             let minus: Vec<(String, State)> = a
                 .lines()?
                 .into_iter()
-                .map(|l| (l, State::HunkMinus(DiffType::Unified, None)))
+                .map(|(l, raw)| (l, State::HunkMinus(DiffType::Unified, raw)))
                 .collect();
             let plus: Vec<(String, State)> = a
                 .lines()?
                 .into_iter()
-                .map(|l| (l, State::HunkPlus(DiffType::Unified, None)))
+                .map(|(l, raw)| (l, State::HunkPlus(DiffType::Unified, raw)))
                 .collect();
             let alignment = a.alignment()?;
             a.done()?;
@@ -420,7 +430,7 @@ pub fn handle(op: &str, args: &[&str]) -> Result<String, String> {
             let nb = a.num()?;
             enum B {
                 Zero(String),
-                Sub(Vec<String>, Vec<String>),
+                Sub(Vec<(String, Option<String>)>, Vec<(String, Option<String>)>),
             }
             let mut blocks = Vec::new();
             for _ in 0..nb {
@@ -473,15 +483,15 @@ pub fn handle(op: &str, args: &[&str]) -> Result<String, String> {
                         ));
                     }
                     B::Sub(m, p) => {
-                        for l in m {
+                        for (l, raw) in m {
                             painter
                                 .minus_lines
-                                .push((l, State::HunkMinus(DiffType::Unified, None)));
+                                .push((l, State::HunkMinus(DiffType::Unified, raw)));
                         }
-                        for l in p {
+                        for (l, raw) in p {
                             painter
                                 .plus_lines
-                                .push((l, State::HunkPlus(DiffType::Unified, None)));
+                                .push((l, State::HunkPlus(DiffType::Unified, raw)));
                         }
                         let alignment = paint::verif_linenum_line_alignment(
                             &MinusPlus::new(&painter.minus_lines, &painter.plus_lines),
